@@ -10,6 +10,7 @@ package pmm
 // set model of the physical frames.
 
 import (
+	"unsafe"
 	"fmt"
 	"regexp"
 	"sort"
@@ -53,6 +54,13 @@ func pmRun(c pmCase, prop string) (fail *vlib.Failure, rs pmRunStats) {
 		if prop == "C03" {
 			return vlib.Failf("pmm.Init crashed instead of succeeding or reporting out-of-memory: %v", pc), rs
 		}
+		return nil, rs
+	}
+	if v := env.mappingVerdict(); v != "" && (len(env.stray) > 0 || initErr == nil) && (prop == "C03" || prop == "C07") {
+		// writing to pages that were never reserved is a crash in waiting
+		return vlib.Failf("pmm.Init %s", v), rs
+	}
+	if prop == "C07" {
 		return nil, rs
 	}
 	if initErr != nil {
@@ -500,4 +508,80 @@ func TestVerifC03Replay(t *testing.T) {
 	}
 	fail, _ := pmRun(c, "C03")
 	vlib.Report(t, "C03", c, fail)
+}
+
+
+// ---------------------------------------------------------------------------
+// C07, seen from the physical allocator: pmm.Init reserves a virtual region for
+// its own state and maps it page by page. "Mapping ... through such a
+// reservation maps exactly the pages needed to cover the requested size" is
+// checked on the mappings Init makes (every page of the reserved size once,
+// nothing outside). Half of the cases aim the size of that state at a page
+// boundary: n pools need n*sizeof(framePool) + 8 bytes per 64 frames.
+
+func c07pGenRegions(t *rapid.T) []pmRegion {
+	hdr := uint64(unsafe.Sizeof(framePool{}))
+	n := rapid.IntRange(1, 4).Draw(t, "pools")
+	pages := uint64(rapid.IntRange(1, 2).Draw(t, "statepages"))
+	words := (pages*4096 - uint64(n)*hdr) / 8
+	// -1 / 0 / +1 words around the exact fit
+	words = uint64(int64(words) + int64(rapid.IntRange(-1, 1).Draw(t, "slack")))
+	var regs []pmRegion
+	cur := rapid.SampledFrom([]uint64{0, 0x100000, 1 << 32}).Draw(t, "base")
+	left := words
+	for i := 0; i < n; i++ {
+		w := left
+		if i < n-1 {
+			w = uint64(rapid.IntRange(1, int(left)-(n-1-i)).Draw(t, "poolwords"))
+		}
+		left -= w
+		frames := w*64 - uint64(rapid.IntRange(0, 63).Draw(t, "partialword"))
+		regs = append(regs, pmRegion{cur, frames * 4096, 1})
+		cur += frames*4096 + rapid.SampledFrom([]uint64{0x1000, 0x100000}).Draw(t, "gap")
+	}
+	return regs
+}
+
+func TestVerifC07Pmm(t *testing.T) {
+	st := vlib.For("C07")
+	defer vlib.Flush()
+	rapid.Check(t, func(t *rapid.T) {
+		var c pmCase
+		aimed := rapid.Bool().Draw(t, "aimed")
+		if aimed {
+			c.Regions = c07pGenRegions(t)
+		} else {
+			c.Regions = pmGenRegions(t, 6, false)
+		}
+		ks, ke, _, ok := pmGenKernel(t, c.Regions)
+		if !ok {
+			st.Case(c, false, "pmm-no-available-region-with-a-whole-frame")
+			return
+		}
+		c.KStart, c.KEnd = ks, ke
+		c.Tables = rapid.IntRange(0, 3).Draw(t, "tables")
+		fail, rs := pmRun(c, "C07")
+		labels := []string{"pmm-init-reservation"}
+		if aimed {
+			labels = append(labels, "pmm-state-size-aimed-at-a-page-boundary")
+		}
+		if rs.initFailed {
+			labels = append(labels, "pmm-init-failed")
+		}
+		st.Case(c, aimed && !rs.initFailed, labels...)
+		vlib.Report(t, "C07", c, fail)
+	})
+}
+
+func TestVerifC07PmmReplay(t *testing.T) {
+	var c pmCase
+	ok, err := vlib.LoadReplay(&c)
+	if !ok {
+		t.Skip("no replay requested")
+	}
+	if err != nil {
+		t.Fatalf("VERIF-HARNESS cannot load replay: %v", err)
+	}
+	fail, _ := pmRun(c, "C07")
+	vlib.Report(t, "C07", c, fail)
 }
